@@ -81,6 +81,10 @@ def run_real(case, values):
             warnings.simplefilter("ignore")
             r = case.call(mod, env)
     except Exception as e:  # noqa: BLE001
+        acc = C.internal_error(e)
+        if acc is not None:
+            # the harness itself failed (not the code under test): no verdict from this input
+            return ("harness-error", acc)
         return ("raise", e)
     changed = sorted(n for n, (v, c) in snap.items() if not _same(v, c))
     if changed:
@@ -181,6 +185,8 @@ def conform(T, case, values, compare_hidden=None):
     if mk_kind == "outside":
         return "outside"
     rk, rr = run_real(case, values)
+    if rk == "harness-error":
+        raise C.Unsupported("harness accident in the real run: %s" % rr)
     if mk_kind == "limit":
         return None  # outside the number model: nothing to compare
     if mk_kind == "symbolic":
@@ -303,6 +309,8 @@ def replay(case, values):
     """run the real function on the counter-model and evaluate the contract: -> (violated clauses
     or None when outside requires, short description of what the real code did)"""
     out = run_real(case, values)
+    if out[0] == "harness-error":
+        return None, "harness accident (no verdict): %s" % out[1]
     bad = evaluate_contract(case, values, out)
     if out[0] == "raise":
         what = "raised %s: %s" % (type(out[1]).__name__, str(out[1])[:120])
